@@ -121,11 +121,84 @@ func checkC01(c *Ctx) {
 	p.Budget = 10 * time.Second
 	id := 0
 	var groups [][]*proto.Case
+	stride := 15 // the event streams of every stride-th normal session go to TLC as well
+	if c.Thorough() {
+		stride = 200
+	}
+	nsessions := 0
+	// ---- run, recording the event stream of every session (in batches, so that the cases need not all be in memory) ----
+	handle := func(pc *proto.Case, res *proto.Result) {
+		t := byID[pc.ID]
+		c.Rep.Eval(t.desc)
+		ev := func(e string, extra map[string]interface{}) {
+			m := map[string]interface{}{"ev": e}
+			for k, v := range extra {
+				m[k] = v
+			}
+			t.events = append(t.events, m)
+		}
+		ev("reset", map[string]interface{}{"run": pc.ID})
+		for range res.InitNtfs {
+			ev("push", nil)
+		}
+		for i, s := range res.Steps {
+			st := pc.Steps[i]
+			if strings.HasPrefix(st.M, "fs.") {
+				continue
+			}
+			if st.N {
+				ev("notify", nil)
+			} else {
+				ev("send", map[string]interface{}{"id": i + 1})
+			}
+			for range s.Ntfs {
+				ev("push", nil)
+			}
+			if !st.N && s.Got {
+				for k := 0; k < int(s.Ms/1000); k++ {
+					ev("tick", nil)
+				}
+				ev("reply", map[string]interface{}{"id": i + 1})
+			} else if !st.N && !s.Got {
+				break
+			}
+		}
+		for range res.Hooks {
+			ev("fault", nil)
+			t.bad = true
+		}
+		if res.Hang {
+			for k := 0; k < 10; k++ {
+				ev("tick", nil)
+			}
+			t.bad = true
+		}
+		if res.Crash != "" {
+			ev("crash", nil)
+			t.bad = true
+			t.desc += " — " + res.Crash
+		}
+		if len(res.Hooks) > 0 {
+			t.desc += " — swallowed by the parser: " + string(res.Hooks[0])
+		}
+		// keep the event stream of anomalous sessions and of a sample of the others; release the rest
+		if !t.bad && pc.ID%stride != 0 {
+			t.events = nil
+			t.raw = nil
+			delete(byID, pc.ID)
+		}
+		pc.Steps, pc.Files, pc.FilesB64 = nil, nil, nil
+	}
 	add := func(desc string, raw json.RawMessage, pc *proto.Case) {
 		t := &c01Trace{id: pc.ID, desc: desc, raw: raw}
 		byID[pc.ID] = t
 		traces = append(traces, t)
 		groups = append(groups, []*proto.Case{pc})
+		nsessions++
+		if len(groups) >= 20000 {
+			p.RunSlice(groups, handle)
+			groups = nil
+		}
 	}
 	// ---- (a) hostile byte strings ----
 	var cls []string
@@ -431,68 +504,16 @@ func checkC01(c *Ctx) {
 			return
 		}
 	}
-	c.Rep.Extra["sessions"] = len(groups)
-	// ---- run, recording the event stream of every session ----
-	p.RunSlice(groups, func(pc *proto.Case, res *proto.Result) {
-		t := byID[pc.ID]
-		c.Rep.Eval(t.desc)
-		ev := func(e string, extra map[string]interface{}) {
-			m := map[string]interface{}{"ev": e}
-			for k, v := range extra {
-				m[k] = v
-			}
-			t.events = append(t.events, m)
-		}
-		ev("reset", map[string]interface{}{"run": pc.ID})
-		for range res.InitNtfs {
-			ev("push", nil)
-		}
-		for i, s := range res.Steps {
-			st := pc.Steps[i]
-			if strings.HasPrefix(st.M, "fs.") {
-				continue
-			}
-			if st.N {
-				ev("notify", nil)
-			} else {
-				ev("send", map[string]interface{}{"id": i + 1})
-			}
-			for range s.Ntfs {
-				ev("push", nil)
-			}
-			if !st.N && s.Got {
-				for k := 0; k < int(s.Ms/1000); k++ {
-					ev("tick", nil)
-				}
-				ev("reply", map[string]interface{}{"id": i + 1})
-			} else if !st.N && !s.Got {
-				break
-			}
-		}
-		for range res.Hooks {
-			ev("fault", nil)
-			t.bad = true
-		}
-		if res.Hang {
-			for k := 0; k < 10; k++ {
-				ev("tick", nil)
-			}
-			t.bad = true
-		}
-		if res.Crash != "" {
-			ev("crash", nil)
-			t.bad = true
-			t.desc += " — " + res.Crash
-		}
-		if len(res.Hooks) > 0 {
-			t.desc += " — swallowed by the parser: " + string(res.Hooks[0])
-		}
-	})
+	if len(groups) > 0 {
+		p.RunSlice(groups, handle)
+		groups = nil
+	}
 	// ---- TLC decides: anomalous sessions and a sample of normal ones through LivenessTrace.tla ----
 	var buf bytes.Buffer
 	nl, nt := 0, 0
-	for i, t := range traces {
-		if !t.bad && i%((len(traces)/3000)+1) != 0 {
+	c.Rep.Extra["sessions"] = nsessions
+	for _, t := range traces {
+		if len(t.events) == 0 {
 			continue
 		}
 		nt++
